@@ -332,6 +332,11 @@ func c07Judge(rep *vk.Report, x *c07Exec) {
 		}
 	}
 	// listener: exactly once per timed-out application, never otherwise (counts are final after the grace period)
+	// a callback that won the compare-and-swap calls the listener right away, but its goroutine may be descheduled on a
+	// loaded machine: too few calls are re-read for up to 2s, too many are final immediately
+	for w := 0; w < 2000 && int(x.listeners.Load()) < timedOut; w++ {
+		time.Sleep(time.Millisecond)
+	}
 	if int(x.listeners.Load()) != timedOut {
 		viol("listener-count", fmt.Sprintf("OnTimeoutExceeded called %d times, %d applications returned ErrExceeded (pattern %s)", x.listeners.Load(), timedOut, pattern))
 		return
